@@ -218,4 +218,25 @@ example : mulmod_2expp1_basecase [B - 1] [B - 1] 0 64 = ([4], 0) := by decide
 example : mulmod_2expp1_basecase [0] [0] 3 64 = ([1], 0) := by decide
 example : mulmod_2expp1_basecase [1] [0] 1 64 = ([0], 1) := by decide
 
+/-- mpn_mulmod_Bexpp1 for limbs ≤ FFT_MULMOD_2EXPP1_CUTOFF (the pointwise multiplication of the MFA transforms):
+    for fully reduced operands (top limb 0, or the vector (0,…,0,1)) the result is their product modulo p,
+    again fully reduced.  (Built on the basecase theorem; same exclusions.) -/
+theorem mulmod_Bexpp1_val (a b : List Nat) (n : Nat) (ha : Limbs a) (hb : Limbs b)
+    (hla : a.length = n + 1) (hlb : b.length = n + 1) (hn : 1 ≤ n)
+    (ca : top a = 0 ∨ (top a = 1 ∧ val (lo a) = 0)) (cb : top b = 0 ∨ (top b = 1 ∧ val (lo b) = 0)) :
+    (mulmod_Bexpp1 a b).1.length = n + 1 ∧ Limbs (mulmod_Bexpp1 a b).1 ∧
+    (top (mulmod_Bexpp1 a b).1 = 0 ∨ (top (mulmod_Bexpp1 a b).1 = 1 ∧ val (lo (mulmod_Bexpp1 a b).1) = 0)) ∧
+    rval (mulmod_Bexpp1 a b).1 ≡ rval a * rval b [ZMOD pmod n] := by
+  obtain ⟨A, t1, rfl, hA⟩ := as_snoc a n hla
+  obtain ⟨C, t2, rfl, hC⟩ := as_snoc b n hlb
+  obtain ⟨ys, g, e, l, L, cn, r⟩ := mulmod_Bexpp1_spec A C t1 t2 ha hb (by omega) (by omega) ca cb
+  rw [e, hA] at *
+  exact ⟨by simp [l], L, cn, r⟩
+
+-- non-vacuity modulo B²+1: (B² ≡ −1)·5 = −5; (−1)·(−1) = 1; an ordinary product
+example : rval (mulmod_Bexpp1 [0, 0, 1] [5, 0, 0]).1 = (B : Int) ^ 2 + 1 - 5 := by decide
+example : mulmod_Bexpp1 [0, 0, 1] [0, 0, 1] = ([1, 0, 0], 0) := by decide
+example : (rval (mulmod_Bexpp1 [B - 1, 7, 0] [3, B - 1, 0]).1 - rval [B - 1, 7, 0] * rval [3, B - 1, 0]) % pmod 2 = 0 := by
+  decide
+
 end Mpir.Fft
